@@ -1,5 +1,5 @@
 use crate::{
-    language::{Language, SupportedLanguage},
+    language::{doc_lines, Language, SupportedLanguage},
     parser::{remove_dash_from_identifier, DecoratorKind, ParsedData},
     rename::RenameExt,
     rust_types::{
@@ -748,7 +748,7 @@ impl Swift {
     fn write_comment(&mut self, w: &mut dyn Write, indent: usize, comment: &str) -> io::Result<()> {
         // A doc comment written as `/** .. */` or `#[doc = ".."]` may span lines: every line
         // has to be a comment line of its own.
-        for line in comment.trim_end().split('\n') {
+        for line in doc_lines(comment.trim_end()) {
             writeln!(w, "{}/// {}", "\t".repeat(indent), line.trim_end())?;
         }
         Ok(())
